@@ -4,6 +4,7 @@
 -/
 import ClairModel.Model.TarFSPath
 
+set_option linter.unusedSimpArgs false
 namespace ClairModel.TarFS
 
 /-! ### strings.Split / strings.Join on "/" -/
@@ -508,6 +509,114 @@ theorem normPath_valid (p : Bytes) : validPath (normPath p) = true := by
       rw [hsplit] at he
       have hg := (hcs e he).1
       exact ⟨fun h => hg.1 (hr.1.1 h), fun h => hg.2.1 (hr.2.1.1 h), fun h => hg.2.2 (hr.2.2.1 h)⟩
+
+
+/-! ### Valid UTF-8 and "/" -/
+
+theorem splitSlash_single {n : Bytes} (h : SL ∉ n) : splitSlash n = [n] := by
+  have := splitSlash_append_noSlash n [] h
+  simpa [splitSlash] using this
+
+theorem ValidU_append {a b : Bytes} (ha : ValidU a) (hb : ValidU b) : ValidU (a ++ b) := by
+  induction ha with
+  | nil => simpa using hb
+  | step s w hne hw _ ih =>
+    have hpos := utf8Width_pos hw
+    have hle : w ≤ s.length := by
+      cases s with
+      | nil => exact absurd rfl hne
+      | cons c cs =>
+        by_cases hc : c < 0x80
+        · simp [utf8Width, hc] at hw; subst hw; simp
+        · exact (utf8Width_hi hw hc).2.1
+    have e : s ++ b = s.take w ++ (s.drop w ++ b) := by rw [← List.append_assoc, List.take_append_drop]
+    have hlen : (s.take w).length = w := by rw [List.length_take]; exact Nat.min_eq_left hle
+    rw [e]
+    apply ValidU_unit
+    · intro h; rw [h] at hlen; simp at hlen; omega
+    · rw [hlen]; exact utf8Width_prefix hw _
+    · exact ih
+
+/-- The unit `utf8Width` accepts at the head of `a ++ '/' :: b` lies inside `a`. -/
+theorem unit_before_slash {c : UInt8} {a b : Bytes} {w : Nat}
+    (hw : utf8Width (c :: a ++ SL :: b) = some w) : w ≤ (c :: a).length := by
+  by_cases hc : c < 0x80
+  · simp [utf8Width, hc] at hw; subst hw; simp
+  · have hs := utf8Width_hi (cs := a ++ SL :: b) hw hc
+    apply Decidable.byContradiction
+    intro hgt
+    have hgt : (c :: a).length < w := by omega
+    have hmem : SL ∈ (c :: (a ++ SL :: b)).take w := by
+      have : c :: (a ++ SL :: b) = (c :: a) ++ SL :: b := by simp
+      rw [this, List.take_append]
+      apply List.mem_append_right
+      obtain ⟨d, hd⟩ : ∃ d, w - (c :: a).length = d + 1 := ⟨w - (c :: a).length - 1, by omega⟩
+      rw [hd]; simp
+    have := hs.2.2 SL hmem
+    revert this; decide
+
+theorem ValidU_split_slash : ∀ (s : Bytes), ValidU s → ∀ (a b : Bytes), s = a ++ SL :: b → ValidU a ∧ ValidU b := by
+  intro s h
+  induction h with
+  | nil => intro a b e; simp at e
+  | step s w hne hw hrest ih =>
+    intro a b e
+    subst e
+    cases a with
+    | nil =>
+      simp [utf8Width, show SL < 0x80 by decide] at hw
+      subst hw
+      exact ⟨.nil, by simpa using hrest⟩
+    | cons c a =>
+      have hle : w ≤ (c :: a).length := unit_before_slash (by simpa using hw)
+      have hpos := utf8Width_pos hw
+      have hdrop : ((c :: a) ++ SL :: b).drop w = (c :: a).drop w ++ SL :: b :=
+        List.drop_append_of_le_length hle
+      obtain ⟨h1, h2⟩ := ih _ b hdrop
+      refine ⟨?_, h2⟩
+      have htake : ((c :: a) ++ SL :: b).take w = (c :: a).take w := List.take_append_of_le_length hle
+      have hw' : utf8Width ((c :: a).take w ++ (c :: a).drop w) = some w := by
+        rw [← htake]; exact utf8Width_prefix hw _
+      rw [List.take_append_drop] at hw'
+      exact .step _ w (by simp) hw' h1
+
+theorem splitSlash_append_slash (a b : Bytes) : splitSlash (a ++ SL :: b) = splitSlash a ++ splitSlash b := by
+  induction a with
+  | nil => simp [splitSlash_slash, splitSlash]
+  | cons c cs ih =>
+    simp only [List.cons_append]
+    rw [splitSlash, splitSlash.eq_def (c :: cs)]
+    split
+    · rename_i hc; simp [ih, hc]
+    · rename_i hc
+      simp only [ih]
+      have := splitSlash_ne_nil cs
+      cases h : splitSlash cs with
+      | nil => exact absurd h this
+      | cons x xs => simp [hc]
+
+/-- Every element of a valid UTF-8 path is valid UTF-8. -/
+theorem ValidU_elems : ∀ (n : Nat) (s : Bytes), s.length ≤ n → ValidU s → ∀ e ∈ splitSlash s, ValidU e := by
+  intro n
+  induction n with
+  | zero =>
+    intro s hs _ e he
+    have : s = [] := List.eq_nil_of_length_eq_zero (by omega)
+    subst this
+    simp [splitSlash] at he; subst he; exact .nil
+  | succ n ih =>
+    intro s hs hv e he
+    by_cases hsl : SL ∈ s
+    · obtain ⟨a, b, rfl⟩ := List.append_of_mem hsl
+      obtain ⟨ha, hb⟩ := ValidU_split_slash _ hv a b rfl
+      rw [splitSlash_append_slash] at he
+      simp only [List.mem_append] at he
+      simp at hs
+      rcases he with he | he
+      · exact ih a (by omega) ha e he
+      · exact ih b (by omega) hb e he
+    · rw [splitSlash_single hsl] at he
+      simp at he; subst he; exact hv
 
 
 end ClairModel.TarFS
